@@ -148,6 +148,69 @@ def py_greedy_ok(sp):
     return shape(sp) and len(ns) == len(set(ns))
 
 
+# ------------------------------------------------------------------ the statement again, position-based
+def member_dp(sp, w, mixed, strict):
+    """Same question as `member`, decided by a second, independent algorithm (end-position sets,
+    polynomial): used for long words, and cross-checked against `member` on short ones."""
+    w = list(w)
+    n = len(w)
+    if sp is None:
+        return n == 0
+    run = [0] * (n + 1)                 # run[i]: length of the maximal run of w[i] starting at i
+    for i in range(n - 1, -1, -1):
+        run[i] = 1 + (run[i + 1] if i + 1 < n and w[i + 1] == w[i] else 0)
+    memo = {}
+
+    def ends(sp, i):
+        key = (id(sp), i)
+        if key in memo:
+            return memo[key]
+        if sp[0] == "el":
+            _, name, lo, hi = sp
+            r = run[i] if i < n and w[i] == name else 0
+            top = r if hi is None else min(r, hi)
+            res = frozenset(i + k for k in range(lo, top + 1))
+        elif sp[0] == "seq":
+            cur = {i}
+            for item in sp[1]:
+                nxt = set()
+                for p in cur:
+                    nxt |= ends(item, p)
+                cur = nxt
+                if not cur:
+                    break
+            res = frozenset(cur)
+        else:
+            _, alts, lo, hi = sp
+            cap = lo if hi is None else hi          # counts saturate at lo when there is no maximum
+            seen = {(i, 0)}
+            todo = [(i, 0)]
+            while todo:
+                p, c = todo.pop()
+                c2 = c + 1
+                if hi is None:
+                    c2 = min(c2, cap)
+                elif c2 > hi:
+                    continue
+                for a in alts:
+                    for q in ends(a, p):
+                        if q == p and strict:
+                            continue
+                        st = (q, c2)
+                        if st not in seen and not (q == p and c2 == c):
+                            seen.add(st)
+                            todo.append(st)
+            res = frozenset(p for (p, c) in seen if mixed or c >= lo)
+        memo[key] = res
+        return res
+
+    return n in ends(sp, 0)
+
+
+def in_language(sp, w, mixed, strict):
+    return member(sp, w, mixed, strict) if len(w) <= 12 else member_dp(sp, w, mixed, strict)
+
+
 # ------------------------------------------------------------------ word generators
 def sample_lang(rng, sp, slack=2):
     """a random member of L(sp)"""
@@ -188,6 +251,115 @@ def mutants(rng, w, names):
         i = rng.randint(0, len(w))
         out.append(w[:i] + [rng.choice(names)] + w[i:])     # insert a declared name
     return out
+
+
+def spec_contains(sp, site):
+    if sp is site:
+        return True
+    if sp[0] == "el":
+        return False
+    return any(spec_contains(x, site) for x in sp[1])
+
+
+def unbounded_sites(sp):
+    """(node, alternative index or None) for every place of the spec that may repeat without limit"""
+    out = []
+
+    def go(sp):
+        if sp[0] == "el":
+            if sp[3] is None:
+                out.append((sp, None))
+            return
+        if sp[0] == "cho" and sp[3] is None:
+            out.append((sp, None))
+            for j in range(len(sp[1])):
+                out.append((sp, j))
+        for x in sp[1]:
+            go(x)
+    if sp is not None:
+        go(sp)
+    return out
+
+
+def nonempty_piece(rng, a):
+    for _try in range(6):
+        piece = sample_lang(rng, a, 1)
+        if piece:
+            return piece
+    return []
+
+
+def sample_long(rng, sp, site, j, target):
+    """a member of L(sp) with about `target` names (more than 256), obtained by repeating one
+    unbounded place of the spec (`site`; for a choice: alternative j, or a random mix)"""
+    if sp is site:
+        if sp[0] == "el":
+            return [sp[1]] * target
+        out = []
+        while len(out) < target:
+            piece = nonempty_piece(rng, sp[1][j] if j is not None else rng.choice(sp[1]))
+            if not piece:
+                break
+            out += piece
+        return out
+    if sp[0] == "el" or not spec_contains(sp, site):
+        return sample_lang(rng, sp, 1)
+    if sp[0] == "seq":
+        out = []
+        for i in sp[1]:
+            out += sample_long(rng, i, site, j, target)
+        return out
+    _, alts, lo, hi = sp
+    holder = [a for a in alts if spec_contains(a, site)][0]
+    out = sample_long(rng, holder, site, j, target)
+    for _ in range(max(lo, 1) - 1):
+        out += nonempty_piece(rng, rng.choice(alts))
+    return out
+
+
+def long_words(rng, sp, names, n_sites, n_mut):
+    out = []
+    sites = unbounded_sites(sp)
+    rng.shuffle(sites)
+    for site, j in sites[:n_sites]:
+        w = sample_long(rng, sp, site, j, rng.randint(257, 300))
+        if len(w) <= 256:
+            continue
+        out.append(w)
+        ms = mutants(rng, w, names)
+        ms.append(w + [FOREIGN])
+        ms.append(w[:-1])
+        rng.shuffle(ms)
+        out += ms[:n_mut]
+    return out
+
+
+def fresh(x):
+    """a NEW str object equal to x (identity slips are invisible with shared literals)"""
+    return "".join(list(x)) if isinstance(x, str) else x
+
+
+def build_parent(content, attrs, w):
+    from metapype.model.node import Node
+    n = Node(fresh(PARENT), content=fresh(content))
+    for k, v in attrs:
+        n.add_attribute(fresh(k), fresh(v))
+    for k in w:
+        n.add_child(Node(fresh(k)))
+    return n
+
+
+def coq_kids(w):
+    """child names as a Coq list; long words run-length encoded"""
+    if len(w) <= 16:
+        return clist(cstr(k) for k in w)
+    return "(concat " + clist("repeat %s %d%%nat" % (cstr(k), len(list(g))) for k, g in itertools.groupby(w)) + ")"
+
+
+def coq_rncase_rle(rname, content, attrs, w):
+    return ("{| rn_rule := %s; rn_case := {| nc_name := %s; nc_content := %s; nc_attrs := %s; nc_kids := %s; nc_orc := %s |} |}"
+            % (cstr(rname), cstr(PARENT), common.copt(content), clist(common.cpair(cstr(k), cstr(v)) for k, v in attrs),
+               coq_kids(w), RL.coq_orc([content])))
 
 
 def all_words(alpha, maxlen):
@@ -259,10 +431,10 @@ def impl_shared(rname, content, attrs, w, shared):
     validate.tree does with its one list): returns the codes this validation APPENDED."""
     from metapype.eml import rule as R
     from metapype.model.node import Node
-    n = RL.build_node(PARENT, content, attrs, w)
+    n = build_parent(content, attrs, w)
     n0 = len(shared)
     try:
-        R.Rule(rname).validate_rule(n, shared)
+        R.Rule(fresh(rname)).validate_rule(n, shared)
         out = [RL.entry_code(e) for e in shared[n0:]]
     except Exception as e:  # noqa
         out = [RL.entry_code(x) for x in shared[n0:]] + ["CRASH:" + type(e).__name__]
@@ -270,16 +442,54 @@ def impl_shared(rname, content, attrs, w, shared):
     return out
 
 
+def keeper_call(keeper, content, attrs, w, mode):
+    """one validate_rule call on a long-lived Rule object; returns the fail-fast outcome string or the collected codes"""
+    from metapype.eml.exceptions import MetapypeRuleError
+    from metapype.model.node import Node
+    n = build_parent(content, attrs, w)
+    try:
+        if mode == "fail-fast":
+            try:
+                keeper.validate_rule(n)
+                out = "OK"
+            except MetapypeRuleError as e:
+                out = type(e).__name__
+            except Exception as e:  # noqa
+                out = "CRASH:" + type(e).__name__
+        else:
+            errs = []
+            try:
+                keeper.validate_rule(n, errs)
+                out = [RL.entry_code(e) for e in errs]
+            except Exception as e:  # noqa
+                out = [RL.entry_code(x) for x in errs] + ["CRASH:" + type(e).__name__]
+    finally:
+        Node.store.clear()
+    return out
+
+
+def impl_fresh(rname, content, attrs, w):
+    """both modes, a new Rule object per call, every string a new object"""
+    from metapype.eml import rule as R
+    from metapype.model.node import Node
+    n = build_parent(content, attrs, w)
+    out = RL.run_both(lambda errs: R.Rule(fresh(rname)).validate_rule(n, errs))
+    Node.store.clear()
+    return out
+
+
 # ------------------------------------------------------------------ statement on one observation
-def judge(ctx, rname, sp, mixed, w, ff, codes, key_prefix="C01", shared_codes=None, shared_before=None):
+def judge(ctx, rname, sp, mixed, w, ff, codes, key_prefix="C01", shared_codes=None, shared_before=None, reused=None):
     """Compare one observation of the implementation with the statement. Returns
     ('in'|'out'|'band', accepted)."""
     names = spec_names(sp)
-    in_l = all(x in names for x in w) and member(sp, w, mixed, True)
-    in_len = all(x in names for x in w) and member(sp, w, mixed, False)
+    in_l = all(x in names for x in w) and in_language(sp, w, mixed, True)
+    in_len = all(x in names for x in w) and in_language(sp, w, mixed, False)
     accepted_ff = ff == "OK"
     accepted_co = codes == []
     word = " ".join(w)
+    if len(w) > 40:
+        word = "%d children: %s" % (len(w), " ".join("%s*%d" % (k, len(list(g))) for k, g in itertools.groupby(w)))[:300]
     rep = {"kind": "impl-vs-statement", "rule": rname, "word": w, "parent": PARENT, "mixed": mixed,
            "observed": {"fail_fast": ff, "collecting_codes": codes},
            "expected": {"in_L": in_l, "in_Llen": in_len}}
@@ -316,6 +526,24 @@ def judge(ctx, rname, sp, mixed, w, ff, codes, key_prefix="C01", shared_codes=No
                      "holds (the model is a function of the node alone)",
                      {"kind": "broken-correspondence", "rule": rname, "word": w, "fresh_list_codes": codes,
                       "appended_to_used_list": shared_codes}, concrete=False)
+    if reused is not None and not any(v["key"] == f"{key_prefix}:{rname}:{word}" for v in ctx.violations):
+        # the same validation through a Rule object that has already validated other parents
+        mode, out = reused
+        fresh_out = ff if mode == "fail-fast" else codes
+        acc_r = (out == "OK") if mode == "fail-fast" else (out == [])
+        rep2 = dict(rep)
+        rep2["reused_rule"] = {"mode": mode, "outcome": out, "outcome_with_a_new_Rule_object": fresh_out}
+        crashed = out.startswith("CRASH") if mode == "fail-fast" else any(c.startswith("CRASH") for c in out)
+        if crashed:
+            ctx.fail(f"{key_prefix}:{rname}:{word}", f"a Rule object that validated other parents before raised a non-rule exception ({mode}): {out}", rep2)
+        elif in_l and not acc_r:
+            ctx.fail(f"{key_prefix}:{rname}:{word}", f"a Rule object that validated other parents before rejects a sequence of the language ({mode}: {out})", rep2)
+        elif (not in_len) and acc_r:
+            ctx.fail(f"{key_prefix}:{rname}:{word}", f"a Rule object that validated other parents before accepts a sequence outside the language ({mode})", rep2)
+        elif out != fresh_out:
+            ctx.fail(f"corr:reused-rule:{rname}", "a reused Rule object and a new one give different results for the same parent "
+                     "(the model is a function of the node alone)",
+                     {"kind": "broken-correspondence", "rule": rname, "word": w, "mode": mode, "reused": out, "new": fresh_out}, concrete=False)
     band = in_len and not in_l
     return ("band" if band else ("in" if in_l else "out")), accepted_ff
 
@@ -388,13 +616,20 @@ def run(ctx):
     s_len = 5 if thorough else 3
     s_cap = 12000 if thorough else 700
     n_rand = 1500 if thorough else 100
+    n_long_sites = 12 if thorough else 3
+    n_long_mut = 6 if thorough else 2
+    from metapype.eml import rule as R
     ctx.extra["rule"] = (
         "(B-i) per shipped rule: all child-name sequences of length <= %d over the rule's names + one foreign name "
         "(cap %d, longer ones sampled) + 6 language samples + their one-edit mutants, parent 'p' with canonical content and "
         "required attributes, both modes, model evaluated in Coq; (B-ii) %d random specs (depth <= 3, shapes outside greedy_ok "
         "included) x 20 words through an installed rule; (S) per shipped rule: all sequences of length <= %d (cap %d) judged "
         "against brute-force membership in L/Llen written from the property text and against the verified decider inL "
-        "evaluated in Coq; non-trivial = distinct (rule, word) with a non-empty word" % (corr_len, corr_cap, n_rand, s_len, s_cap))
+        "evaluated in Coq (words of length <= 12); plus, per rule, up to %d words of 257-300 children (each unbounded place of "
+        "the rule repeated) with %d mutants each, judged by a position-based membership test and evaluated by the model in Coq; "
+        "every word is validated five ways: fail-fast and collecting with new Rule objects, collecting into a used list, and once "
+        "through one long-lived Rule object per rule (random mode); all names are new str objects; "
+        "non-trivial = distinct (rule, word) with a non-empty word" % (corr_len, corr_cap, n_rand, s_len, s_cap, n_long_sites, n_long_mut))
 
     # ---------------- (B-i) + (S) over the shipped table
     cases, wants, meta = [], [], []
@@ -420,10 +655,13 @@ def run(ctx):
         summary = set()      # (code, child name) of its entries
         history = []         # the words whose validation appended to it
 
+        keeper = R.Rule(fresh(rname))   # one long-lived Rule object validating every parent of this rule
+        calls = []                      # (word, mode) it has been used for
+
         def observe(w):
             t = tuple(w)
             if t not in observed:
-                observed[t] = RL.impl_named_rule(rname, PARENT, content, attrs, w)
+                observed[t] = impl_fresh(rname, content, attrs, w)
             return observed[t]
 
         # (B-i) correspondence words
@@ -433,6 +671,12 @@ def run(ctx):
                 w = sample_lang(rng, sp)
                 c_words.append(w)
                 c_words += mutants(rng, w, names)
+
+        # more than 256 children: repeats of every unbounded place of the rule, and one-edit mutants
+        if sp is not None:
+            l_words = long_words(rng, sp, names, n_long_sites, n_long_mut)
+            c_words += l_words
+            ctx.count("long-words(>256 children)", len(l_words))
 
         # (S) statement search (judges the correspondence words, too)
         s_words, ex = capped_words(rng, alpha, s_len, s_cap)
@@ -462,8 +706,21 @@ def run(ctx):
             sc = impl_shared(rname, content, attrs, w, shared)
             for e in shared[n0:]:
                 summary.add((RL.entry_code(e), e[3] if len(e) > 3 and isinstance(e[3], str) else None))
+            mode = "fail-fast" if rng.random() < 0.6 else "collecting"
+            kout = keeper_call(keeper, content, attrs, w, mode)
             nviol = len(ctx.violations)
-            cls, acc = judge(ctx, rname, sp, mixed, w, ff, codes, shared_codes=sc, shared_before=before)
+            cls, acc = judge(ctx, rname, sp, mixed, w, ff, codes, shared_codes=sc, shared_before=before, reused=(mode, kout))
+            if len(ctx.violations) > nviol and "reused_rule" in ctx.violations[-1]["replay"]:
+                # self-contained replay: one earlier call on a new Rule object that is enough, else the recent ones
+                prior = None
+                for w0, m0 in reversed(calls[-40:]):
+                    k2 = R.Rule(fresh(rname))
+                    keeper_call(k2, content, attrs, w0, m0)
+                    if keeper_call(k2, content, attrs, w, mode) == kout:
+                        prior = [[w0, m0]]
+                        break
+                ctx.violations[-1]["replay"]["reused_rule"]["prior_calls"] = prior if prior is not None else [[a, b] for a, b in calls[-60:]]
+            calls.append((w, mode))
             if len(ctx.violations) > nviol and "shared_list" in ctx.violations[-1]["replay"]:
                 # make the replay self-contained: one earlier parent whose entries are enough, else all of them
                 prior = None
@@ -482,7 +739,13 @@ def run(ctx):
             ctx.count("S:len=%d" % min(len(w), 6))
             if cls == "band":
                 n_band += 1
-            dec_items.append(([idx[x] for x in w], acc, {"in": 2, "band": 1, "out": 0}[cls]))
+            if len(w) <= 12:      # the deciders in Coq try all splits: short words only
+                dec_items.append(([idx[x] for x in w], acc, {"in": 2, "band": 1, "out": 0}[cls]))
+            if len(w) <= 6 and rng.random() < 0.15:
+                for strict in (True, False):
+                    if member(sp, w, mixed, strict) != member_dp(sp, w, mixed, strict):
+                        ctx.fail(f"oracle:dp:{rname}", "the two membership tests of the harness disagree",
+                                 {"kind": "oracle-disagreement", "rule": rname, "word": w, "strict": strict}, concrete=False)
             if not acc:
                 ctx.count("S:ff=" + ff)
         per_rule_dec.append((rname, alpha, dec_items))
@@ -494,7 +757,7 @@ def run(ctx):
                 continue
             seen.add(t)
             ff, codes = observe(w)
-            cases.append(RL.coq_rncase(rname, PARENT, content, attrs, w))
+            cases.append(coq_rncase_rle(rname, content, attrs, w))
             wants.append(RL.coq_outcome((ff, codes)))
             meta.append({"rule": rname, "word": w, "content": content, "attrs": attrs, "observed": [ff, codes]})
             ctx.count("B:shipped")
@@ -573,7 +836,7 @@ def run(ctx):
                     w = sorted(w)
             words.append(w)
         for w in words:
-            out = RL.impl_rule(rule, mixed, PARENT, None, [], w)
+            out = RL.impl_rule(rule, mixed, PARENT, None, [], [fresh(x) for x in w])
             r_cases.append(RL.coq_rcase(rule, mixed, PARENT, None, [], w))
             r_wants.append(RL.coq_outcome(out))
             r_meta.append({"children": ch, "mixed": mixed, "word": w, "observed": list(out), "greedy_ok": gok})
@@ -586,7 +849,9 @@ def run(ctx):
                 in_l = all(x in names for x in w) and member(sp, w, mixed, True)
                 in_len = all(x in names for x in w) and member(sp, w, mixed, False)
                 acc = out[0] == "OK"
-                if in_l == in_len and acc != in_l or (acc != (out[1] == [])):
+                crashed = out[0].startswith("CRASH") or any(c.startswith("CRASH") for c in out[1])
+                off_family = (not acc and out[0] not in FF_FAMILY) or any(c not in CODE_FAMILY for c in out[1])
+                if in_l == in_len and acc != in_l or (acc != (out[1] == [])) or crashed or off_family:
                     ctx.fail("generic:random-spec", "on a random greedy_ok spec the implementation disagrees with the language "
                              "(the generic theorem is about the model: the model/implementation tie is what broke)",
                              {"kind": "broken-correspondence", "children": ch, "mixed": mixed, "word": w,
@@ -634,7 +899,7 @@ def replay(ctx, data):
         return run(ctx)
     rj = rules[rname]
     sp = parse_top(rj[1])
-    ff, codes = RL.impl_named_rule(rname, PARENT, RL.canonical_content(rj), required_attrs(rj), w)
+    ff, codes = impl_fresh(rname, RL.canonical_content(rj), required_attrs(rj), w)
     print(f"rule={rname} word={w} fail_fast={ff} collecting={codes} "
           f"in_L={member(sp, w, rname in MIXED_RULES, True)} in_Llen={member(sp, w, rname in MIXED_RULES, False)}")
     ctx.case((rname, tuple(w)))
@@ -647,4 +912,14 @@ def replay(ctx, data):
         before = sorted(set((RL.entry_code(e), e[3] if len(e) > 3 and isinstance(e[3], str) else None) for e in shared), key=str)
         sc = impl_shared(rname, RL.canonical_content(rj), required_attrs(rj), w, shared)
         print(f"after validating {prior} into one list, validating {w} appended {sc}")
-    judge(ctx, rname, sp, rname in MIXED_RULES, w, ff, codes, shared_codes=sc, shared_before=before)
+    reused = None
+    rr = rep.get("reused_rule")
+    if rr is not None:
+        from metapype.eml import rule as R
+        k = R.Rule(fresh(rname))
+        for w0, m0 in rr.get("prior_calls") or []:
+            print(f"same Rule object, {m0}, {w0}: {keeper_call(k, RL.canonical_content(rj), required_attrs(rj), w0, m0)}")
+        out = keeper_call(k, RL.canonical_content(rj), required_attrs(rj), w, rr["mode"])
+        print(f"same Rule object, {rr['mode']}, the word: {out}")
+        reused = (rr["mode"], out)
+    judge(ctx, rname, sp, rname in MIXED_RULES, w, ff, codes, shared_codes=sc, shared_before=before, reused=reused)
